@@ -283,6 +283,7 @@ def run_coq_cases(prop, cases, timeout=1200, header=CASE_HEADER):
                     cid, expr = item
                 f.write('\nEval vm_compute in ("@@CASE %s").\n' % cid)
                 f.write("Eval vm_compute in (%s).\n" % expr)
+                f.write('Eval vm_compute in ("@@END %s").\n' % cid)
         env = dict(os.environ)
         env["OCAMLRUNPARAM"] = "s=8M,o=200"   # fewer heap resizes: parallel coqc is page-fault bound here
         p = subprocess.Popen(["timeout", str(timeout), "coqc", "-noglob", "-Q", os.path.join(COQDIR, "theories"),
@@ -297,7 +298,13 @@ def run_coq_cases(prop, cases, timeout=1200, header=CASE_HEADER):
             errors.append("%s: exit %d: %s" % (os.path.basename(path), p.returncode, se[-2000:]))
         parts = re.split(r'=\s*"@@CASE ([^"]*)"\s*:\s*string', so)
         for i in range(1, len(parts), 2):
-            out[parts[i]] = parts[i + 1]
+            # a case counts only if its end marker was printed: the output of a shard that was killed (time limit, memory) stops in
+            # the middle of a value, and a truncated value must not be mistaken for an answer of the model
+            m = re.search(r'=\s*"@@END %s"\s*:\s*string' % re.escape(parts[i]), parts[i + 1])
+            if m:
+                out[parts[i]] = parts[i + 1][:m.start()]
+            else:
+                errors.append("%s: the evaluation of case %s was cut short (no end marker): ignored" % (os.path.basename(path), parts[i]))
         base = os.path.basename(path)[:-2]
         for fn in os.listdir(GEN):
             if fn.startswith(base + ".") or fn.startswith("." + base + "."):
@@ -381,12 +388,17 @@ def compare_ep(impl_ok, model_rows, select=None, rel=Fraction(2, 100000), ratio_
             continue
         a = fi.get(k)
         b = model_rows.get(k)
-        if a is None or b is None:
+        if a is None and b is None:
+            continue
+        if (a is not None and not isinstance(a, Fraction)) or (b is not None and not isinstance(b, Fraction)):
             bad.append((k, a, b))
             continue
-        if not isinstance(a, Fraction):
-            bad.append((k, a, b))
-            continue
+        # an entry that one side does not list is a zero entry of a map (both sides list the non-zero entries only): where the
+        # exact value is a few 1e-14 kWh the f32 value is 0 and the entry is absent; judged like any other value, within tolerance
+        missing = a is None or b is None
+        a0, b0 = a, b
+        a = Fraction(0) if a is None else a
+        b = Fraction(0) if b is None else b
         if k.startswith("rer"):
             tol = ratio_abs + rer_extra
         elif RATIO_RE.search(k):
@@ -397,7 +409,7 @@ def compare_ep(impl_ok, model_rows, select=None, rel=Fraction(2, 100000), ratio_
                 sc = scale / area
             tol = rel * sc + Fraction(1, 1000000)
         if abs(a - b) > tol:
-            bad.append((k, a, b))
+            bad.append((k, a0, b0) if missing else (k, a, b))
     return bad
 
 
